@@ -125,16 +125,10 @@ CMP_LEMMA = {"id": "CMP-order", "text": "compare_hits on three hits with ARBITRA
 
 PROPS["C06"] = {
     "assumptions": ["glue (argument in DESIGN.md §5 C06, not solver-decided): Store::search is candidates -> map(score) -> filter -> "
-                    "limit_sort_unstable(limit, compare_hits) -> highlight; the per-record verdict is TM-local"],
-    "outside": "limit = 0 with a non-empty input (Kani artefact F13: zero-capacity vector + symbolic element), stores of more than 7 "
+                    "limit_sort_unstable(limit, compare_hits) -> highlight"],
+    "outside": "the clause 'a record\'s verdict depends only on that record and the query' (three matcher calls in one harness exceed 24 GB; the scratch buffers' history independence is decided per kernel under C16/C17); limit = 0 with a non-empty input (Kani artefact F13), stores of more than 7 "
                "candidates, the wiring of Store::search itself, the index cap (C18)",
-    "lemmas": [LS_LEMMA,
-               {"id": "TM-local", "text": "the match vectors computed by the real text_match for one record after an earlier call on ANOTHER record "
-                                          "and query equal those computed first thing (scores and the filter are pure functions of them): the thread-local scratch (RMATCHES, QMATCHES, distance matrix, Jaccard buffers) "
-                                          "carries nothing over",
-                "bounds": "title/query shapes of the instance names (1-2 letter words), all contents symbolic",
-                "opts": {"unwind": 7, "timeout": 2400, "checks": "functional", "mem_gb": 24},
-                "quick": ["tm_local_r1_q1"], "thorough": ["tm_local_r2_q2"]}],
+    "lemmas": [LS_LEMMA],
 }
 PROPS["C07"] = {
     "assumptions": ["glue (DESIGN.md §5 C07): the relative order of two hits is compare_hits of their own score vectors (TM-local, C06); "
